@@ -58,6 +58,8 @@ fn c15_handle_recv_and_try_recv() {
     assert!(FLUSHES.load(SeqCst) == 0, "C15.handle.never_flushes");
 }
 
+// TIER: thorough
+// NOTE: 614 s measured; the quick tier keeps the per-message contracts (handle_recv / handle_try_recv)
 // BOUND: receive script of at most 3 entries (Line / Shutdown / Empty / Disconnected in any order), one write failure position
 #[kani::proof]
 #[kani::unwind(8)]
